@@ -8,13 +8,16 @@ Ltac Zify.zify_post_hook ::= Z.div_mod_to_equations.
 Close Scope N_scope.
 Open Scope nat_scope.
 
+Section Extra0.
+Variable extra : nat.
+
 (* ---- select0 ---- *)
 Theorem se256_select0_correct_proof bs sp0 sp1 k :
-  se256_select0 (se256_build bs sp0 sp1) k = select0 bs k.
+  se256_select0 (se256_build bs extra sp0 sp1) k = select0 bs k.
 Proof.
-  destruct (se256_build_spec bs sp0 sp1) as (Hbits & Hsize & Hnw & Hmr1 & Hmr0 & Hclen & Hbase & Hrel & Hsent & Hs1 & Hs0).
+  destruct (se256_build_spec extra bs sp0 sp1) as (Hbits & Hsize & Hnw & Hmr1 & Hmr0 & Hclen & Hbase & Hrel & Hsent & Hs1 & Hs0).
   pose proof (nlines256_bounds (length bs)) as [Hn1 Hn2].
-  set (s := se256_build bs sp0 sp1) in *. set (nl := nlines256 (length bs)) in *.
+  set (s := se256_build bs extra sp0 sp1) in *. set (nl := nlines256 (length bs)) in *.
   set (mr0 := length bs - count1 bs) in *.
   (* the padded, negated list *)
   set (m := 256 * nl - length bs).
@@ -109,8 +112,8 @@ Proof.
   destruct (select1_window P (256 * block + 64 * j0) k) as (Hsel & Hin); [lia|exact Hwin|].
   rewrite se256_scan0_skip.
   - rewrite Hsel. f_equal. unfold LINE256, WPL256. rewrite Hzb by lia. rewrite Hbits, Hnw.
-    assert (Hword : (if block * 4 + j0 <? nwords (length bs) then word bs (block * 4 + j0) else []) = word bs (block * 4 + j0)).
-    { destruct (Nat.ltb_spec (block * 4 + j0) (nwords (length bs))); [reflexivity|]. rewrite word_past by assumption. reflexivity. }
+    assert (Hword : (if block * 4 + j0 <? (nwords (length bs) + extra) then word bs (block * 4 + j0) else []) = word bs (block * 4 + j0)).
+    { destruct (Nat.ltb_spec (block * 4 + j0) ((nwords (length bs) + extra))); [reflexivity|]. rewrite word_past by lia. reflexivity. }
     rewrite Hword.
     rewrite (padded_word bs m) by lia. fold L. rewrite <- firstn_map, <- skipn_map. fold P.
     replace (64 * (block * 4 + j0)) with (256 * block + 64 * j0) by lia.
@@ -120,3 +123,4 @@ Proof.
     assert (seg P (256 * block) (64 * S j0) <= seg P (256 * block) (64 * j)) by (apply seg_mono; lia). lia.
   - rewrite Hzb by lia. lia.
 Qed.
+End Extra0.
